@@ -183,6 +183,24 @@ func runAdmitBin(env *Env) error {
 			}
 			o := settle()
 			obs = append(obs, o)
+			// model-independent: an arrival from outside the whitelist is closed, not left hanging; a whitelisted arrival
+			// waits only while all slots are in use
+			okOf := map[int]bool{}
+			for _, e := range events {
+				var k, b int
+				if n, _ := fmt.Sscanf(e, "a:%d:%d", &k, &b); n == 2 {
+					okOf[k] = b == 1
+				}
+			}
+			nsNow := strings.Count(o, "S")
+			for k := 0; k < next && k < len(o); k++ {
+				if o[k] == 'W' && !okOf[k] && spec != "" && (limit == 0 || nsNow < limit) { // (while every slot is in use the accept loop does not look at new arrivals at all)
+					env.OracleFail(id, fmt.Sprintf("[C15-filter] connection %d from outside the whitelist %q is not closed although a slot is free (the real binary, --max-clients %d): events %v -> %s", k, spec, limit, events, o))
+				}
+				if o[k] == 'W' && okOf[k] && (limit == 0 || nsNow < limit) {
+					env.OracleFail(id, fmt.Sprintf("[C15-progress] whitelisted connection %d waits although only %d of %d slots are in use (whitelist %q): events %v -> %s", k, nsNow, limit, spec, events, o))
+				}
+			}
 			if ns := strings.Count(o, "S"); limit > 0 && ns > limit {
 				env.OracleFail(id, fmt.Sprintf("[C15-bound] the real binary serves %d connections at once with --max-clients %d --client-whitelist %q (events %v)", ns, limit, spec, events))
 			}
